@@ -31,4 +31,10 @@ META = {
   text="Generated search over configurations x chain contents x interleavings of growth and indexing steps (thousands of histories quick, ~10^5 thorough), with the complete table compared against an independent projection after every successful step and at quiescence. Exploration only: bounded chain lengths (tens of blocks) and sizes; no absence claim.",
   note="Trusted: harness/fakepg (Postgres semantics of ~20 statement shapes), harness/sim (JSON-RPC node), harness/model + refmodel (projection). pgx and net/http are in the loop but only as transport.",
  ),
+ "C03": dict(
+  design_ref="DESIGN.md §4, §5 C03",
+  technique="rapid model-based state machine with generated reorgs (between steps and between the RPC calls of a step), quiescence equality against the projection of the canonical chain",
+  text="Generated search over reorg histories (depth, replacement length, repeated/nested, mid-step at chosen RPC calls, shared client caches, batch sizes > 1) with the final table and every retained position compared with the canonical chain, plus a frame invariant on commit records for blocks below the fork. Bounded convergence: running out of settle budget while still progressing is inconclusive, never a violation.",
+  note="Trusted: fakepg, sim node, projection model. Liveness ('once the source settles') is checked as convergence within a step budget proportional to chain length.",
+ ),
 }
